@@ -358,57 +358,67 @@ func c06InvalidShares(run *mon.Run, r *rand.Rand, g *thrGroup) {
 				bad = []byte{}
 			}
 			rep := map[string]any{"n": g.n, "t": g.t, "seed": mon.Hex(g.seed), "signers": signers, "bad_pos": pos, "kind": kind, "bad": mon.Hex(bad), "msg": mon.Hex(g.msg), "tag": g.tag}
-			// stateful + TrustedAdd: must give an error, never a signature
-			ins, err := g.inspector()
-			if err != nil {
-				return
+			// stateful + TrustedAdd of the invalid share: must give an error, never a signature; the valid
+			// shares come in through TrustedAdd, through VerifyAndAdd, or through a mix of both
+			for mode := 0; mode < 3; mode++ {
+				ins, err := g.inspector()
+				if err != nil {
+					return
+				}
+				rep := map[string]any{"n": g.n, "t": g.t, "seed": mon.Hex(g.seed), "signers": signers, "bad_pos": pos, "kind": kind, "bad": mon.Hex(bad), "msg": mon.Hex(g.msg), "tag": g.tag, "valid_shares_added_by": [...]string{"TrustedAdd", "VerifyAndAdd", "mixed"}[mode]}
+				run.Guard("stateful-invalid-share:"+kind, rep, func() {
+					for i, s := range signers {
+						sh := g.share[s]
+						if i == pos {
+							sh = bad
+						}
+						if i != pos && (mode == 1 || mode == 2 && i%2 == 0) {
+							if v, _, e := ins.VerifyAndAdd(s, sh); e != nil || !v {
+								run.Violate("C06:verify-and-add-rejects-valid", fmt.Sprintf("VerifyAndAdd of a valid share returned (%v, _, %v)", v, e), rep)
+							}
+							continue
+						}
+						if _, e := ins.TrustedAdd(s, sh); e != nil {
+							run.Violate("C06:trusted-add-error", fmt.Sprintf("TrustedAdd returned %v", e), rep)
+						}
+					}
+					out, err := ins.ThresholdSignature()
+					run.Eval(1)
+					run.Count("invalid-share."+kind, 1)
+					// the verdict must be stable: a failed reconstruction never turns into a signature later
+					for rep2 := 0; rep2 < 2; rep2++ {
+						out2, err2 := ins.ThresholdSignature()
+						if (err2 == nil) != (err == nil) || !bytes.Equal(out2, out) {
+							run.Violate(fmt.Sprintf("C06:stateful-unstable-after-invalid-share:%s", kind),
+								fmt.Sprintf("ThresholdSignature after a %s share: first call (%x, %v), repeated call (%x, %v)", kind, []byte(out), err, []byte(out2), err2), rep)
+							break
+						}
+					}
+					if err == nil {
+						// The property: the object never returns a signature that fails verification. A
+						// torsion component can vanish under the Lagrange coefficient (L = 0 mod 3), in
+						// which case the unique valid group signature legitimately comes out.
+						if bytes.Equal(out, g.E) {
+							run.Count("invalid-share-masked."+kind, 1)
+						} else {
+							run.Violate(fmt.Sprintf("C06:stateful-returns-invalid-signature:%s", kind),
+								fmt.Sprintf("ThresholdSignature returned %x (not the group signature %x) after a %s share was added at position %d", []byte(out), g.E, kind, pos), rep)
+						}
+					} else if !crypto.IsInvalidInputsError(err) && !crypto.IsInvalidSignatureError(err) {
+						run.Violate("C06:stateful-invalid-share-error-class:"+kind, fmt.Sprintf("error %v is neither invalid-inputs nor invalid-signature", err), rep)
+					}
+					// VerifyAndAdd refuses it
+					ins2, _ := g.inspector()
+					v, _, e := ins2.VerifyAndAdd(signers[pos], bad)
+					has, _ := ins2.HasShare(signers[pos])
+					if v || e != nil || has {
+						run.Violate("C06:verify-and-add-accepts-invalid:"+kind, fmt.Sprintf("VerifyAndAdd(invalid %s share) = (%v, _, %v), HasShare=%v", kind, v, e, has), rep)
+					}
+					if ok, e := ins2.VerifyShare(signers[pos], bad); ok || e != nil {
+						run.Violate("C06:verify-share-accepts-invalid:"+kind, fmt.Sprintf("VerifyShare = (%v,%v)", ok, e), rep)
+					}
+				})
 			}
-			run.Guard("stateful-invalid-share:"+kind, rep, func() {
-				for i, s := range signers {
-					sh := g.share[s]
-					if i == pos {
-						sh = bad
-					}
-					if _, e := ins.TrustedAdd(s, sh); e != nil {
-						run.Violate("C06:trusted-add-error", fmt.Sprintf("TrustedAdd returned %v", e), rep)
-					}
-				}
-				out, err := ins.ThresholdSignature()
-				run.Eval(1)
-				run.Count("invalid-share."+kind, 1)
-				// the verdict must be stable: a failed reconstruction never turns into a signature later
-				for rep2 := 0; rep2 < 2; rep2++ {
-					out2, err2 := ins.ThresholdSignature()
-					if (err2 == nil) != (err == nil) || !bytes.Equal(out2, out) {
-						run.Violate(fmt.Sprintf("C06:stateful-unstable-after-invalid-share:%s", kind),
-							fmt.Sprintf("ThresholdSignature after a %s share: first call (%x, %v), repeated call (%x, %v)", kind, []byte(out), err, []byte(out2), err2), rep)
-						break
-					}
-				}
-				if err == nil {
-					// The property: the object never returns a signature that fails verification. A
-					// torsion component can vanish under the Lagrange coefficient (L = 0 mod 3), in
-					// which case the unique valid group signature legitimately comes out.
-					if bytes.Equal(out, g.E) {
-						run.Count("invalid-share-masked."+kind, 1)
-					} else {
-						run.Violate(fmt.Sprintf("C06:stateful-returns-invalid-signature:%s", kind),
-							fmt.Sprintf("ThresholdSignature returned %x (not the group signature %x) after a %s share was added at position %d", []byte(out), g.E, kind, pos), rep)
-					}
-				} else if !crypto.IsInvalidInputsError(err) && !crypto.IsInvalidSignatureError(err) {
-					run.Violate("C06:stateful-invalid-share-error-class:"+kind, fmt.Sprintf("error %v is neither invalid-inputs nor invalid-signature", err), rep)
-				}
-				// VerifyAndAdd refuses it
-				ins2, _ := g.inspector()
-				v, _, e := ins2.VerifyAndAdd(signers[pos], bad)
-				has, _ := ins2.HasShare(signers[pos])
-				if v || e != nil || has {
-					run.Violate("C06:verify-and-add-accepts-invalid:"+kind, fmt.Sprintf("VerifyAndAdd(invalid %s share) = (%v, _, %v), HasShare=%v", kind, v, e, has), rep)
-				}
-				if ok, e := ins2.VerifyShare(signers[pos], bad); ok || e != nil {
-					run.Violate("C06:verify-share-accepts-invalid:"+kind, fmt.Sprintf("VerifyShare = (%v,%v)", ok, e), rep)
-				}
-			})
 			// stateless: no panic, documented error classes only
 			shares := make([]crypto.Signature, len(signers))
 			for i, s := range signers {
